@@ -279,11 +279,16 @@ def pp(draw, prof, n, redox, need=(), exclude=()):
     if redox != "inert":
         pool += P["minerals_fe"][:2] if redox == "o2" else P["minerals_fe"]
     names = _some(draw, pool, 1, 4)
-    for nm in need:
-        if nm not in names:
-            names.append(nm)
+    if need:
+        # the phase an exchanger / surface is tied to must not be consumed (e.g. Calcite -> undersaturated Aragonite):
+        # with the phase exhausted a Donnan surface keeps 0 kg of water and its dump holds '-nan' entries that cannot be
+        # read back (known finding) -> the assemblage then consists of the tied phase(s) only
+        names = list(dict.fromkeys(need))
+        labels_need = ["excluded_other_phases_next_to_tied_phase"]
+    else:
+        labels_need = []
     L = ["EQUILIBRIUM_PHASES %d" % n]
-    labels = []
+    labels = list(labels_need)
     for nm in names:
         si = draw(st.sampled_from([0.0, 0.0, 0.0, None]))
         if si is None:
